@@ -49,7 +49,7 @@ def check(prop, tier):
             e = b["e"]
             if b["c"] in OWN[prop]:
                 what = {"crash": "the VM panicked: %s" % e.get("panic"), "rest": "bookkeeping not closed after the run (cursor nil: %s, next top-level call announced at depth 0: %s)" % (e.get("cursornil"), e.get("start")),
-                        "protocol": "a call began while another was open", "work": "opcode 0x%x performed %s state reads and %s writes for %s gas" % (e.get("op", 0), e.get("reads"), e.get("writes"), e.get("cost"))}[b["c"]]
+                        "protocol": "a call began while another was open", "work": "opcode 0x%x performed %s state reads and %s writes and grew memory by %s bytes for %s gas (of which %s handed to the callee)" % (e.get("op", 0), e.get("reads"), e.get("writes"), e.get("grow"), e.get("cost"), e.get("fwd"))}[b["c"]]
                 v.candidate("fuzz." + b["c"], "run %s: %s" % (e.get("run"), what), {"seed": seed(), "run": e.get("run"), "line": e, "cmd": "VERIF_SEED=%d bin/check %s %s   (run = index/generator/fork/entry)" % (seed(), prop, tier)})
             else:
                 v.drift.append("fuzz.%s outside %s: %s" % (b["c"], prop, json.dumps(e)[:300]))
@@ -57,6 +57,8 @@ def check(prop, tier):
         raise InfraError("TLC consumed %d lines, the harness wrote %d" % (lines, rep["lines"]))
     if cnt.get("journal", 0) == 0 or cnt.get("work", 0) == 0:
         raise InfraError("generator too weak: no journal-opcode step was executed")
+    if cnt.get("biggrows", 0) == 0:
+        raise InfraError("generator too weak: no instruction grew memory by 64 KiB or more")
     v.cov["traces_validated_against_impl"] += rep["runs"]
     v.cov["evaluations"] += rep["runs"]
     v.cov["distinct_nontrivial"] += rep["runs"]
@@ -66,7 +68,7 @@ def check(prop, tier):
     precomp.run(v, prop, tier)
     v.cov["rule"] = ("seeded programs (structured / mutated / raw bytes) that include the journal opcodes 0xe0-0xe7 with arbitrary operands and memory, TLOAD/TSTORE/MCOPY and calls of every kind "
                      "to 0x64-0x66 with arbitrary payloads, on 6 forks, join points on/off, 6 entry points, each behind recover(); one trace per run validated by FuzzTrace.tla "
-                     "(no action for a panic; bookkeeping closed after every result; (reads+writes)*20 <= cost+40 for every instruction); plus every operand-class vector of "
+                     "(no action for a panic; bookkeeping closed after every result; (reads+writes)*20 <= cost+40 and 3*memory growth <= 32*(cost - gas handed to the callee + 2300) + 192 for every instruction); plus every operand-class vector of "
                      "JournalCodec.tla and Precompile.tla (C20: calls to precompiles 1-9 and 0x64-0x66 announcing lengths 0..2^256-1, bytes allocated by the whole call <= AllocPerGas*gas + AllocSlack)")
     v.assumptions += ["TLC 1.8", "an unrecoverable Go runtime error (out of memory, stack exhaustion) kills the harness process and is reported as a machinery failure with its output",
                       "work = state reads and writes counted by a wrapping StateDB between two callbacks of the same frame; allocation of journal opcodes is bounded indirectly (they cannot read beyond existing memory); allocation of precompile calls is runtime.MemStats.TotalAlloc around the call in a single-threaded process"]
